@@ -1,5 +1,6 @@
 SPECIFICATION Spec
 CONSTANTS
+  PairMode = "std"
   Universe <- UniverseIndepThorough
   FormatsUsed <- AllFormats
   Origin = "indep"
